@@ -14,6 +14,15 @@
 //	ft <d> <step>...         fresh account.AccountDB, token name bound (AddERC20Binding) to a contract with d
 //	                         decimals; steps s<int>=SetFT a<int>=AddFT u<int>=SubFT g=GetFT (accountdb_tuntun.go)
 //
+//	xfer <int> <hex-string>  service.ChangeAssets(src, {dst: {Balance: s}}) with src holding <int> (game.go transfers)
+//	stake <u64>              utility.Float64ToBigInt(float64(n))  (MinerManager.AddStake / AddMiner)
+//	f64 <bits>               utility.Float64ToBigInt(math.Float64frombits(bits))
+//	u64 <u64>                utility.Uint64ToBigInt(n)
+//	stakearg <int>           strconv.ParseUint(utility.BigIntToStrWithoutDot(n), 10, 0)  (vm opStake/opUnstake)
+//	basen <nat> <base>       utility.BigIntBase10toN(n, base)  (2 <= base <= 16, n >= 0: elsewhere the Go loop hangs)
+//	calldata <nat>           common.GenerateCallDataBigInt(n)
+//	size <hex-string> <d>    BitLen of strToBigInt(s, d) (result-size / DoS observation)
+//
 // mode=corr (default): corpus first, then generated ops; writes ops=/obs= files.
 // mode=search: direct property oracle (no model): prints "VIOL <key> <op> :: <detail>" lines.
 // mode=exec op=<line>: evaluate one op line and print the answer (replay).
@@ -22,17 +31,21 @@ package main
 import (
 	"bufio"
 	"fmt"
+	"math"
 	"math/big"
 	"os"
 	"path/filepath"
 	"sort"
 	"strconv"
 	"strings"
+	"time"
 
 	"com.tuntun.rangers/node/src/common"
 	"com.tuntun.rangers/node/src/eth_tx"
 	"com.tuntun.rangers/node/src/executor"
 	"com.tuntun.rangers/node/src/middleware/db"
+	"com.tuntun.rangers/node/src/middleware/types"
+	"com.tuntun.rangers/node/src/service"
 	"com.tuntun.rangers/node/src/storage/account"
 	"com.tuntun.rangers/node/src/utility"
 	"com.tuntun.rangers/node/src/storage/rlp"
@@ -100,6 +113,29 @@ func evmValue(v *big.Int) string {
 }
 
 const hugeExp = 150000
+const sizeLimit = 40000000
+
+// xferRun: service.ChangeAssets (game.go: transferBalance -> StrToBigInt, AddBalance, SubBalance,
+// response BigIntToStr) on a fresh AccountDB whose source account holds srcBal.
+func xferRun(srcBal *big.Int, amount string) string {
+	mem, err := db.NewMemDatabase()
+	if err != nil {
+		return "memdb-error"
+	}
+	adb, err := account.NewAccountDB(common.Hash{}, account.NewDatabase(mem))
+	if err != nil {
+		return "accountdb-error"
+	}
+	src := common.HexToAddress("0x5555555555555555555555555555555555555555")
+	dst := common.HexToAddress("0x6666666666666666666666666666666666666666")
+	adb.SetBalance(src, srcBal)
+	res, ok := service.ChangeAssets(src.String(), map[string]types.TransferData{dst.String(): {Balance: amount}}, adb)
+	flag := "fail"
+	if ok {
+		flag = "ok"
+	}
+	return "xfer " + flag + " " + adb.GetBalance(src).String() + " " + adb.GetBalance(dst).String() + " " + strings.ReplaceAll(res, " ", "_")
+}
 
 // ftRun executes the steps of an `ft` op on a fresh AccountDB.
 func ftRun(d uint64, steps []string) string {
@@ -241,6 +277,88 @@ func exec(op string) string {
 			return "bad-op"
 		}
 		return ftRun(d, w[2:])
+	case w[0] == "xfer" && len(w) == 3:
+		n, ok := parseBig(w[1])
+		b, err := hx.UnHex(w[2])
+		if !ok || err != nil {
+			return "bad-op"
+		}
+		if f, _, e := big.ParseFloat(string(b), 10, 512, big.AwayFromZero); e == nil && !f.IsInf() && f.Sign() != 0 && f.MantExp(nil) > hugeExp {
+			return "skipped-huge"
+		}
+		return xferRun(n, string(b))
+	case w[0] == "stake" && len(w) == 2:
+		n, err := strconv.ParseUint(w[1], 10, 64)
+		if err != nil {
+			return "bad-op"
+		}
+		return showInt(utility.Float64ToBigInt(float64(n)), nil)
+	case w[0] == "f64" && len(w) == 2:
+		b, err := strconv.ParseUint(w[1], 10, 64)
+		if err != nil {
+			return "bad-op"
+		}
+		x := math.Float64frombits(b)
+		if x != x {
+			// big.Float.SetFloat64(NaN) panics with ErrNaN: confirm and report as its own class
+			if r := hx.Guard(func() string { utility.Float64ToBigInt(x); return "nan-accepted" }); strings.HasPrefix(r, "PANIC") {
+				return "nan-panic"
+			}
+			return "nan-accepted"
+		}
+		return showInt(utility.Float64ToBigInt(x), nil)
+	case w[0] == "u64" && len(w) == 2:
+		n, err := strconv.ParseUint(w[1], 10, 64)
+		if err != nil {
+			return "bad-op"
+		}
+		return showInt(utility.Uint64ToBigInt(n), nil)
+	case w[0] == "stakearg" && len(w) == 2:
+		n, ok := parseBig(w[1])
+		if !ok {
+			return "bad-op"
+		}
+		v, err := strconv.ParseUint(utility.BigIntToStrWithoutDot(n), 10, 0)
+		if err != nil {
+			return "err"
+		}
+		return "ok " + strconv.FormatUint(v, 10)
+	case w[0] == "basen" && len(w) == 3:
+		n, ok := parseBig(w[1])
+		b, err := strconv.Atoi(w[2])
+		if !ok || err != nil || n.Sign() < 0 {
+			return "bad-op"
+		}
+		if b < 2 || b > 16 {
+			return "skipped-domain" // base 1 / negative n: the Go loop never terminates; base 0: division by zero; base > 16: index out of range
+		}
+		return "s " + utility.BigIntBase10toN(n, b)
+	case w[0] == "calldata" && len(w) == 2:
+		n, ok := parseBig(w[1])
+		if !ok || n.Sign() < 0 {
+			return "bad-op"
+		}
+		return "s " + common.GenerateCallDataBigInt(n)
+	case w[0] == "size" && len(w) == 3:
+		b, err := hx.UnHex(w[1])
+		d, err2 := strconv.ParseInt(w[2], 10, 64)
+		if err != nil || err2 != nil {
+			return "bad-op"
+		}
+		if f, _, e := big.ParseFloat(string(b), 10, 512, big.AwayFromZero); e == nil && !f.IsInf() && f.Sign() != 0 && f.MantExp(nil) > sizeLimit {
+			dd := d
+			if dd < 0 {
+				dd = 0
+			}
+			if int64(f.MantExp(nil))+int64(pow10(int(dd)).BitLen())-1 <= big.MaxExp {
+				return "skipped-huge"
+			}
+		}
+		v, e := utility.VerifC18StrToBigInt(string(b), d)
+		if e != nil || v == nil {
+			return "err"
+		}
+		return "bits " + strconv.Itoa(v.BitLen())
 	case w[0] == "evmval" && len(w) == 2:
 		n, ok := parseBig(w[1])
 		if !ok {
@@ -521,10 +639,113 @@ func genFT(r *hx.Rng, dist map[string]int) string {
 	return sb.String()
 }
 
+// genU64: boundary-biased uint64 (stakes): small, around 2^53 (float64 exactness limit), 2^63, max.
+func genU64(r *hx.Rng, dist map[string]int) uint64 {
+	switch r.Intn(8) {
+	case 0:
+		dist["u64:small"]++
+		return uint64(r.Intn(100000))
+	case 1:
+		dist["u64:2^53"]++
+		return (uint64(1) << 53) + uint64(r.Intn(41)) - 20
+	case 2:
+		dist["u64:2^k"]++
+		return (uint64(1) << uint(r.Intn(64))) + uint64(r.Intn(5)) - 2
+	case 3:
+		dist["u64:top"]++
+		return ^uint64(0) - uint64(r.Intn(3000))
+	case 4:
+		dist["u64:halfway"]++ // exactly between two float64s above 2^53: ties-to-even
+		k := uint(54 + r.Intn(10))
+		return (uint64(1) << k) + (uint64(2*r.Intn(1000)+1) << (k - 53))
+	default:
+		dist["u64:random"]++
+		return r.U64() >> uint(r.Intn(64))
+	}
+}
+
+// genF64bits: float64 bit patterns: amounts, specials, denormals, huge, random.
+func genF64bits(r *hx.Rng, dist map[string]int) uint64 {
+	switch r.Intn(8) {
+	case 0:
+		dist["f64:special"]++
+		return []uint64{0, 1 << 63, 0x7ff0000000000000, 0xfff0000000000000, 0x7ff8000000000000, 0x7ff0000000000001, 1, 0x000fffffffffffff, 0x0010000000000000, 0x7fefffffffffffff, 0x3ff0000000000000}[r.Intn(11)]
+	case 1:
+		dist["f64:denormal"]++
+		return r.U64() & 0x800fffffffffffff
+	case 2, 3, 4:
+		dist["f64:amount"]++ // a decimal amount as a reward calculation would produce it
+		x := float64(r.Intn(1000000)) / float64(1+r.Intn(1000)) * []float64{1, 0.35, 0.1, 1e-9, 1e9, 1e-18}[r.Intn(6)]
+		if r.Chance(1, 6) {
+			x = -x
+		}
+		return math.Float64bits(x)
+	case 5:
+		dist["f64:integer"]++
+		return math.Float64bits(float64(genU64(r, dist)))
+	default:
+		dist["f64:random"]++
+		b := r.U64()
+		if (b>>52)&0x7ff > 1023+700 { // keep the integer below ~2^760 so that printing stays cheap
+			b &^= uint64(0x400) << 52
+		}
+		return b
+	}
+}
+
+// genSizeStr: strings whose result size is driven by the exponent, not the length.
+func genSizeStr(r *hx.Rng, dist map[string]int) string {
+	dist["size"]++
+	m := strconv.Itoa(1 + r.Intn(9999))
+	switch r.Intn(4) {
+	case 0:
+		return m + "e" + strconv.Itoa(r.Intn(2000000))
+	case 1:
+		return m + "p" + strconv.Itoa(r.Intn(8000000))
+	case 2:
+		return genPlain(r, map[string]int{})
+	default:
+		return m + "." + randDigits(r, r.Intn(30)) + "e" + strconv.Itoa(r.Intn(3000))
+	}
+}
+
 // genOp produces one op line.
 func genOp(r *hx.Rng, dist map[string]int) string {
-	c := r.Intn(108)
+	c := r.Intn(128)
 	switch {
+	case c >= 124:
+		bal := genNat(r, dist)
+		var amt string
+		switch r.Intn(6) {
+		case 0:
+			amt = genMalformed(r, dist)
+		case 1:
+			amt = genExp(r, dist)
+		case 2: // exactly the balance / one unit more
+			v := new(big.Int).Set(bal)
+			if r.Bool() {
+				v.Add(v, big.NewInt(1))
+			}
+			amt = utility.BigIntToStr(v)
+		default:
+			amt = genPlain(r, dist)
+		}
+		return "xfer " + bal.String() + " " + hx.Hex([]byte(amt))
+	case c >= 120:
+		return "size " + hx.Hex([]byte(genSizeStr(r, dist))) + " " + strconv.FormatInt(int64(r.Pick(18, 18, 0, 6)), 10)
+	case c >= 117:
+		if r.Bool() {
+			return "calldata " + genNat(r, dist).String()
+		}
+		return "basen " + genNat(r, dist).String() + " " + strconv.Itoa(2+r.Intn(15))
+	case c >= 114:
+		return "stakearg " + genInt(r, dist).String()
+	case c >= 112:
+		return "u64 " + strconv.FormatUint(genU64(r, dist), 10)
+	case c >= 108:
+		return "f64 " + strconv.FormatUint(genF64bits(r, dist), 10)
+	case c >= 102:
+		return "stake " + strconv.FormatUint(genU64(r, dist), 10)
 	case c >= 100:
 		return genFT(r, dist)
 	case c < 26:
@@ -613,7 +834,50 @@ func search(r *hx.Rng, n int, dist map[string]int) (evals int, distinct int, vs 
 	inDomain := func(v *big.Int) bool { return new(big.Int).Abs(v).Cmp(lim) < 0 }
 	for i := 0; i < n; i++ {
 		evals++
-		switch r.Intn(7) {
+		switch r.Intn(9) {
+		case 8: // stake / refund helpers: exact below 2^53 whole coins, and agreeing with each other
+			n := genU64(r, dist)
+			if n >= 1<<53 {
+				n >>= 11
+			}
+			op := "stake " + strconv.FormatUint(n, 10)
+			seen[op] = true
+			want := new(big.Int).Mul(new(big.Int).SetUint64(n), pow10(18))
+			if got := utility.Float64ToBigInt(float64(n)); got == nil || got.Cmp(want) != 0 {
+				add("stake-exact", op, "Float64ToBigInt(float64(n)) = "+showInt(got, nil)+" want "+want.String())
+			}
+			if got := utility.Uint64ToBigInt(n); got == nil || got.Cmp(want) != 0 {
+				add("uint64-exact", "u64 "+strconv.FormatUint(n, 10), "Uint64ToBigInt(n) = "+showInt(got, nil)+" want "+want.String())
+			}
+			if v, err := strconv.ParseUint(utility.BigIntToStrWithoutDot(want), 10, 0); err != nil || v != n {
+				add("stakearg", "stakearg "+want.String(), "ParseUint(BigIntToStrWithoutDot(n*10^18)) = "+strconv.FormatUint(v, 10))
+			}
+		case 7: // a game transfer of an in-domain decimal amount moves exactly that amount (game.go)
+			bal := genNat(r, dist)
+			if !inDomain(bal) {
+				continue
+			}
+			str := strings.TrimLeft(genPlain(r, dist), "+-")
+			amt, ok := exactPlain(str)
+			if !ok || amt.BitLen() > 256 {
+				continue
+			}
+			op := "xfer " + bal.String() + " " + hx.Hex([]byte(str))
+			seen[op] = true
+			got := hx.Guard(func() string { return exec(op) })
+			var want string
+			if amt.Cmp(bal) <= 0 {
+				left := new(big.Int).Sub(bal, amt)
+				want = "xfer ok " + left.String() + " " + amt.String() + " {\"balance\":\"" + utility.BigIntToStr(left) + "\"}"
+				if back, err := utility.StrToBigInt(utility.BigIntToStr(left)); err != nil || back.Cmp(left) != 0 {
+					add("game-transfer", op, "response balance does not read back: "+utility.BigIntToStr(left))
+				}
+			} else {
+				want = "xfer fail " + bal.String() + " 0 Transfer_Balance_Failed"
+			}
+			if got != want {
+				add("game-transfer", op, "ChangeAssets = "+got+" want "+want)
+			}
 		case 6: // a balance written to an 18-decimal bound token and read back / moved is unchanged
 			v := genNat(r, dist)
 			if !inDomain(v) {
@@ -744,6 +1008,16 @@ func leadNotes() []string {
 		v, err := utility.StrToBigInt(s)
 		out = append(out, strconv.Quote(s)+" -> "+showInt(v, err))
 	}
+	// resource observation (outside C18): result size is driven by the exponent, not the length.
+	// Replayed with exponents that stay cheap; "9e272681876" (11 chars) would need ~10^9 bits.
+	for _, s := range []string{"1e20000", "9e272681", "9e2726818"} {
+		t0 := time.Now()
+		v, err := utility.StrToBigInt(s)
+		el := time.Since(t0)
+		if err == nil && v != nil {
+			out = append(out, fmt.Sprintf("size: %q (%d chars) -> %d bits, StrToBigInt took %dms", s, len(s), v.BitLen(), el.Milliseconds()))
+		}
+	}
 	return out
 }
 
@@ -796,8 +1070,7 @@ func corpusOps() []string {
 
 func main() {
 	a := hx.Args()
-	hxnode.BootLight("dev")
-	executor.InitExecutors()
+	hxnode.BootServices("dev") // config, loggers, middleware, service (package loggers), vm, executors
 	r := hx.NewRng(hx.SeedFromEnv())
 	dist := map[string]int{}
 	mode := a["mode"]
